@@ -36,7 +36,7 @@ def _dump_obls(I):
     out = []
     for o in I.obls.values():
         out.append({'kind': o.kind, 'fn': o.fn, 'bb': o.bb, 'desc': o.desc, 'span': o.span, 'visits': o.visits,
-                    'fails': o.fails, 'sample': o.sample, 'roots': sorted(o.roots)[:4], 'nroots': len(o.roots)})
+                    'fails': o.fails, 'sample': o.sample, 'roots': sorted(o.roots)[:400], 'nroots': len(o.roots)})
     return out
 
 
@@ -134,7 +134,7 @@ def analyze(facts_path, out_path, jobs=None, only=''):
                 m['nroots'] += o['nroots']
                 if m['sample'] is None and o['sample'] is not None:
                     m['sample'] = o['sample']
-                m['roots'] = sorted(set(m['roots']) | set(o['roots']))[:4]
+                m['roots'] = sorted(set(m['roots']) | set(o['roots']))[:400]
     unmod = {}
     axioms = {}
     for r in results:
